@@ -63,6 +63,21 @@ instance (is : List Iss) (cs : List Col) : Decidable (AllMatch is cs) := by
 
 def mkRes (p : Iss × Col) : Res := { iss := p.1, ctx := p.2.1, rpy := p.2.2 }
 
+/-- how the consumer sees the end of `harvest` in (the repaired) `synchronous` and in `pipeline` -/
+def endOfH : HEnd → End
+  | .exhausted => .ok
+  | .stopped _ => .error .incomplete
+  | .raised e => .error e
+
+/-- the zip of `harvest` on the list level: pair while the assertion holds; a mismatch raises; when the
+replies run out before the requests the stream ends as `e` says -/
+def zipSpec : List Iss → List Col → HEnd → List Res × HEnd
+  | [], _, _ => ([], .exhausted)
+  | _ :: _, [], e => ([], e)
+  | i :: is, c :: cs, e =>
+    if Matches i c then (mkRes (i, c) :: (zipSpec is cs e).1, (zipSpec is cs e).2)
+    else ([], .raised .mismatch)
+
 /-- the delivered prefix, all of it buffered, then EOF or silence -/
 def cutState (fs : List Frame) (k : Nat) (closed : Bool) : CSt :=
   { pend := [], buf := (stream fs).take k, evs := [termEv closed] }
@@ -91,6 +106,18 @@ def exchangeCutSpec (P : Frame → Resp) (issued : List Iss) (reg : Frame) (fs :
     .ok ((issued.zip ((fs.take (whole (k - (encodeFrame reg).length) fs)).flatMap (colsOf P))).map mkRes,
          if issued.length ≤ ((fs.take (whole (k - (encodeFrame reg).length) fs)).flatMap (colsOf P)).length
          then .ok else .error (cutErr closed (leftover (k - (encodeFrame reg).length) fs)))
+  else .error (if k = 0 then (if closed then .noenip else .noresponse)
+               else (if closed then .rxerror else .partialHeld))
+
+/-- what `exchange_zip_segmented` says an exchange cut at offset `k` of `reg :: fs` gives, whether or not the
+replies answer the requests -/
+def exchangeZipSpec (P : Frame → Resp) (issued : List Iss) (reg : Frame) (fs : List Frame) (k : Nat)
+    (closed : Bool) : Except ConnErr (List Res × End) :=
+  if (encodeFrame reg).length ≤ k then
+    .ok ((zipSpec issued ((fs.take (whole (k - (encodeFrame reg).length) fs)).flatMap (colsOf P))
+            (cutEnd closed (leftover (k - (encodeFrame reg).length) fs))).1,
+         endOfH (zipSpec issued ((fs.take (whole (k - (encodeFrame reg).length) fs)).flatMap (colsOf P))
+            (cutEnd closed (leftover (k - (encodeFrame reg).length) fs))).2)
   else .error (if k = 0 then (if closed then .noenip else .noresponse)
                else (if closed then .rxerror else .partialHeld))
 
